@@ -17,8 +17,8 @@ import (
 
 func TestC10(t *testing.T) {
 	rec := ev.Get("C10")
-	rec.Rule("per case a synctest bubble: hello delivery plan (already buffered, or k chunks arriving at drawn virtual times), context kind (WithCancel / WithTimeout / WithDeadline / cancelled parent), cancellation slot relative to the hello's completion (while blocked, exactly at completion, immediately after NewConn returned, return+epsilon, expiry after return, never), GOMAXPROCS in {1,2,4,8,16}, optional caller deadline on the transport. After the return the case cancels, calls synctest.Wait() so the watcher goroutine has certainly run, then inspects the transport log and performs I/O, in half of the cases including a HelloRetryRequest round whose retried hello arrives a virtual second later. distinct = (plan, kind, slot, GOMAXPROCS); non-trivial = the context ends within the case")
-	rec.Mandatory("slot:blocked", "slot:after_return_now", "slot:after_return_eps", "slot:expire_after", "slot:never", "slot:at_completion", "buffered", "late", "gomaxprocs1", "gomaxprocs16", "hrr_after_context_end")
+	rec.Rule("per case a synctest bubble: hello delivery plan (already buffered, or k chunks arriving at drawn virtual times), context kind (WithCancel / WithTimeout / WithDeadline / cancelled parent), cancellation slot relative to the hello's completion (while blocked, exactly at completion, immediately after NewConn returned, return+epsilon, expiry after return, never), GOMAXPROCS in {1,2,4,8,16}, optional caller deadline on the transport; in the 'while blocked' slot the peer may not be reading, so that a write without a deadline would block forever. After the return the case cancels, calls synctest.Wait() so the watcher goroutine has certainly run, then inspects the transport log and performs I/O, in half of the cases including a HelloRetryRequest round whose retried hello arrives a virtual second later. distinct = (plan, kind, slot, GOMAXPROCS); non-trivial = the context ends within the case")
+	rec.Mandatory("slot:blocked", "slot:after_return_now", "slot:after_return_eps", "slot:expire_after", "slot:never", "slot:at_completion", "buffered", "late", "gomaxprocs1", "gomaxprocs16", "hrr_after_context_end", "blocked_and_peer_not_reading")
 	defer runtime.GOMAXPROCS(runtime.GOMAXPROCS(0))
 	rapid.Check(t, func(rt *rapid.T) {
 		sc := drawSealed(rt, false)
@@ -68,6 +68,9 @@ func TestC10(t *testing.T) {
 		// (every draw happens outside the bubble: rapid aborts a draw by panicking, which only
 		// the property's own goroutine recovers)
 		far := time.Duration(rapid.IntRange(1, 3600).Draw(rt, "far_s")) * time.Second
+		// while NewConn is blocked the peer may not be reading either (it only writes its
+		// hello, slowly): anything NewConn writes then blocks until a write deadline
+		peerNotReading := slot == "blocked" && rapid.Bool().Draw(rt, "peer_not_reading")
 		// later I/O may include a HelloRetryRequest round: the retried hello is read and
 		// decrypted long after the context has ended
 		withHRR := rapid.Bool().Draw(rt, "with_hrr")
@@ -106,6 +109,7 @@ func TestC10(t *testing.T) {
 						}
 					}()
 				}
+				tr.BlockWrites = peerNotReading
 				var callerDeadline time.Time
 				if callerDL {
 					callerDeadline = start.Add(time.Hour)
@@ -249,6 +253,9 @@ func TestC10(t *testing.T) {
 		}
 		if withHRR && slot != "blocked" {
 			rec.Class("hrr_after_context_end")
+		}
+		if peerNotReading {
+			rec.Class("blocked_and_peer_not_reading")
 		}
 		cl := []string{"slot:" + slot, "kind:" + kind, fmt.Sprintf("gomaxprocs%d", procs)}
 		if nchunks == 0 {
